@@ -20,7 +20,7 @@ CLAIMED = {
  'C10': dict(
    technique='runtime monitoring: differential twins (reused object vs fresh object with the same options / fresh object + exported session) over driver-generated first connections and seeded second-connection scripts',
    level='exploration',
-   text='150 k (quick) / 8 M (thorough) (H,S) pairs: H = a monitored driver history with hostile traffic, any negotiated limits and every close path incl. loss in the middle of a frame; S = handshake with different limits + 5-20 operations exercising each limit. New session (clean start / session not present): traces of X (reused) and Y (fresh, same options) must be equal call by call, incl. public probes of store, handled set, vacancy and acquire results. Resumed session: Y first receives X\'s exported session. The hook digest only names the differing fields in a report.',
+   text='150 k (quick) / 8 M (thorough) (H,S) pairs: H = a monitored driver history with hostile traffic, any negotiated limits and every close path incl. loss in the middle of a frame; S = handshake with different limits + 5-20 operations exercising each limit. S may begin between the connections with alias-only QoS>0 publishes (no binding of the last connection may be usable). New session (clean start / session not present): traces of X (reused) and Y (fresh, same options) must be equal call by call, incl. public probes of store, handled set, vacancy and acquire results. Resumed session: Y first receives X\'s exported session. The hook digest only names the differing fields in a report.',
    note='Trusted: options are configuration scope; an Undetermined server keeps its adopted version; exchanges awaiting PUBCOMP without a stored PUBREL are not part of an export (such resume cases are skipped and counted).',
    design='DESIGN.md §4 C10'),
  'C11': dict(
@@ -50,7 +50,7 @@ CLAIMED = {
  'C06': dict(
    technique='runtime monitoring: online reference-model monitor over call records of seeded random histories (generic driver, hostile peer, small alphabets), every call under catch_unwind in the overflow-checks build',
    level='exploration',
-   text='Store shadow with allowed transitions: an accepted QoS>0 PUBLISH is sent or stored (S1), stored under a persistent session (S2), the exported store changes only for a cause (matching ack, erase, oversize drop, new session) and otherwise equals the shadow after EVERY call (S3), stored packets hold their id (S9), only the matching acknowledgement is accepted (S6), retransmission after CONNACK equals the store in order with DUP, full topic, no alias and before any other packet (S4), session-not-present empties it (S5).',
+   text='Store shadow with allowed transitions: an accepted QoS>0 PUBLISH is sent or stored (S1), stored under a persistent session (S2), the exported store changes only for a cause (matching ack, erase, oversize drop, new session) and otherwise equals the shadow after EVERY call (S3), stored packets hold their id (S9), only the matching acknowledgement is accepted (S6), retransmission after CONNACK equals the store in order with DUP, full topic, no alias and before any other packet (S4), session-not-present empties it (S5), every PUBLISH/PUBREL requested for sending is exactly one well-formed frame of the announced size (S10), the stored copy is the accepted packet: the topic the application meant, no alias, same QoS/RETAIN/payload/properties (S11). About 5% of the v5 packets carry a property section at the 127/128 length-prefix boundary, 8% of the acks carry properties.',
    note='Trusted: the reference model of DESIGN Appendix F (written from the property statements, updated only from calls, returned events and public probes) and the application contract of DESIGN §3.3. The hook digest is only used to read the in-use id set faster; the same clause is re-checked black-box by register()/release() probing on a sample of calls.',
    design='DESIGN.md §4 + Appendix F'),
  'C07': dict(
@@ -62,7 +62,7 @@ CLAIMED = {
  'C08': dict(
    technique='runtime monitoring: online reference-model monitor over call records of seeded random histories (generic driver, hostile peer, small alphabets), every call under catch_unwind in the overflow-checks build; black-box id probing',
    level='exploration',
-   text='In-use set model + ownership model: acquire returns a free id (P1), register succeeds iff free and in range (P2), a release is announced only for an in-use id and never twice (P3), the real in-use set (hook, cross-checked by register/release probing) equals the model after EVERY call (P4: no silent free, no leak), completion/refusal/close release exactly the ids the statement names (P5a-c), release_packet_id is total incl. 0 and free ids (P7).',
+   text='In-use set model + ownership model: acquire returns a free id (P1), register succeeds iff free and in range (P2), a release is announced only for an in-use id and never twice (P3), the real in-use set (hook, cross-checked by register/release probing) equals the model after EVERY call (P4: no silent free, no leak), completion/refusal/close release exactly the ids the statement names (P5a-c), release_packet_id is total incl. 0 and free ids (P7), an id is released by erase only when its exchange ends (P10), every stored packet dropped as oversize on resume has its id released (P9). Directed workloads: all 65535 ids in use at once / exhaustion / smallest-first (P6); one exchange in every stage (awaiting PUBACK, PUBREC, bare PUBREL, PUBREL with properties) resumed under 17 Maximum Packet Size values x automatic responses on/off.',
    note='Trusted: the reference model of DESIGN Appendix F (written from the property statements, updated only from calls, returned events and public probes) and the application contract of DESIGN §3.3. The hook digest is only used to read the in-use id set faster; the same clause is re-checked black-box by register()/release() probing on a sample of calls.',
    design='DESIGN.md §4 + Appendix F'),
  'C12': dict(
@@ -74,7 +74,7 @@ CLAIMED = {
  'C13': dict(
    technique='runtime monitoring: online reference-model monitor over call records of seeded random histories (generic driver, hostile peer, small alphabets), every call under catch_unwind in the overflow-checks build',
    level='exploration',
-   text="Independent model of the RECEIVER's alias table built from the outgoing packet stream: an empty topic is only sent with an alias in range that an earlier PUBLISH actually sent on this connection bound to the intended topic (AL1-AL3), stored/retransmitted copies carry full topic and no alias (AL4), inbound aliased publishes resolve to what the peer bound or are rejected (AL5, AL6); manual, auto-map, auto-replace, refusals in between, reconnects, server publishing before CONNACK.",
+   text="Independent model of the RECEIVER's alias table built from the outgoing packet stream: an empty topic is only sent with an alias in range that an earlier PUBLISH actually sent on this connection bound to the intended topic (AL1-AL3), stored/retransmitted copies carry full topic and no alias (AL4), inbound aliased publishes resolve to what the peer bound or are rejected (AL5, AL6), an alias-only PUBLISH is accepted for queueing only with a binding made on the current connection and is stored under the topic the application meant (AL7, AL4); manual, auto-map, auto-replace, refusals in between, reconnects, server publishing before CONNACK.",
    note='Trusted: the reference model of DESIGN Appendix F (written from the property statements, updated only from calls, returned events and public probes) and the application contract of DESIGN §3.3. The hook digest is only used to read the in-use id set faster; the same clause is re-checked black-box by register()/release() probing on a sample of calls.',
    design='DESIGN.md §4 + Appendix F'),
  'C14': dict(
